@@ -1046,6 +1046,17 @@ func (p *Policy) validURL(rawurl string) (string, bool) {
 			return "", false
 		}
 
+		// A path that begins with two slashes cannot follow an empty authority
+		// (RFC 3986 section 3.3): written out as it is, it would be read back
+		// as a host. Keep it a path, the way the URL standard serialises it.
+		if u.Host == "" && u.User == nil && (u.Scheme == "" || u.OmitHost) &&
+			strings.HasPrefix(u.EscapedPath(), "//") {
+			u.Path = "/." + u.Path
+			if u.RawPath != "" {
+				u.RawPath = "/." + u.RawPath
+			}
+		}
+
 		if u.Scheme != "" {
 			urlPolicies, ok := p.allowURLSchemes[u.Scheme]
 			if !ok {
@@ -1072,17 +1083,6 @@ func (p *Policy) validURL(rawurl string) (string, bool) {
 		}
 
 		if p.allowRelativeURLs {
-			// A path that begins with two slashes cannot follow an empty
-			// authority (RFC 3986 section 3.3): written out as it is, it
-			// would be read back as a host. Keep it a path, the way the URL
-			// standard serialises it.
-			if u.Host == "" && u.User == nil && strings.HasPrefix(u.EscapedPath(), "//") {
-				u.Path = "/." + u.Path
-				if u.RawPath != "" {
-					u.RawPath = "/." + u.RawPath
-				}
-			}
-
 			if u.String() != "" {
 				return u.String(), true
 			}
